@@ -281,6 +281,27 @@ def run_case(case):
                                   f"nidq read_sync({sl}) after {'no' if sl is order_[0] else 'an'} earlier read of the other half (baseline step half-way): analog line differs at "
                                   f"{int((syd[:, 16] != xd[sl]).sum()) if syd.shape[0] == sl.stop - sl.start else '?'} samples", counter="analog_lines_checked")
                     srd.close()
+            # a weak analog line (swing 0.5..0.95 V above its floor) read with a threshold chosen for it: high samples lie far from the threshold
+            # (at least 0.2 V on either side) and read 1; with the default threshold (1.2 V) the same line reads 0 throughout
+            recw = G.make_nidq(rng, mn=mn, ma=ma, xa=1, dw=1, acq=None, mn_gain=1.0, aimax=aimax, ns=ns, fs=25000.0)
+            while True:
+                xw, posw, polw = train(rng, ns, int(rng.integers(4, 30)), min_gap=5)
+                if np.mean(xw == 0) >= 0.25:
+                    break
+            swing = float(rng.uniform(0.5, 0.95))
+            vw = float(rng.uniform(-1, 1)) + np.where(xw == 1, swing, 0.0) + rng.uniform(-0.02, 0.02, ns)
+            recw.raw[:, mn + ma] = np.clip(np.round(vw / i2v), -32768, 32767).astype(np.int16)
+            bw = G.write(recw, scratch() / "weak")
+            with spikeglx.Reader(bw) as srw:
+                thr = float(rng.uniform(0.2, swing - 0.25))
+                syw = srw.read_sync(slice(0, ns), threshold=thr)
+                res.check(syw.shape == (ns, 17) and np.array_equal(syw[:, 16], xw), "read_sync:nidq-threshold:weak-line",
+                          f"nidq analog line swinging {swing:.2f} V above its floor read with threshold={thr:.2f} V: {int((syw[:, 16] != xw).sum()) if syw.shape == (ns, 17) else '?'} "
+                          f"samples differ from the written train ({int(xw.sum())} high samples, {int(syw[:, 16].sum()) if syw.shape == (ns, 17) else '?'} read high)", counter="analog_lines_checked")
+                sy0 = srw.read_sync(slice(0, ns))
+                res.check(sy0.shape == (ns, 17) and not np.any(sy0[:, 16]), "read_sync:nidq-threshold:weak-line", f"the same line read with the default threshold: {int(sy0[:, 16].sum())} samples high")
+                iw, sw_ = U.fronts(syw[:, 16]) if syw.shape == (ns, 17) else (np.array([]), np.array([]))
+                res.check(np.array_equal(iw, posw) and np.array_equal(np.sign(sw_), polw), "read_sync:nidq-threshold:weak-line:fronts", f"fronts of the weak line: {len(iw)} events, {len(posw)} written")
             # an empty selection gives zero rows with the full line count (digital + analog), not an error
             for sl in (slice(7, 7), slice(ns, ns + 5), slice(5, 2)):
                 sy = sr.read_sync(sl)
